@@ -375,4 +375,4 @@ def make_spec(key):
 
 def run(ctx):
     for role in ("server", "client"):
-        ctx.explore(("c20", role, ctx.tier), time_budget=None if ctx.tier == "quick" else 420)
+        ctx.explore(("c20", role, ctx.tier), time_budget=None if ctx.tier == "quick" else 240)
